@@ -88,6 +88,8 @@ func clientinfoEngine(args []string) error {
 	switch c.mode {
 	case "probe":
 		return clientinfoProbe(r, c.n)
+	case "names":
+		return namesEngine(r, c.n)
 	case "headers":
 		certDir, re, err := ensureCerts(args)
 		if re || err != nil {
